@@ -21,7 +21,12 @@ exactly these cases, see TokenUtils!Quirk*):
     end delimiter directly follows the start delimiter (documented result: []); reachable through get_target_tokens on
     a real PromptSequencers.AOP tokenization ("<TARGET_START> <TARGET_END>") and get_adj_list_tokens on an edgeless maze;
   * str_is_coord / coord_str_to_tuple_noneable / strings_to_coords accept surplus outer parentheses ("((0,0)", "(0,0))");
-  * get_path_tokens(trim_end=False) returns everything up to the END OF THE LIST, not "to the path_end token".
+  * get_path_tokens(trim_end=False) returns everything up to the END OF THE LIST (padding after <PATH_END> included), not
+    "to the path_end token";
+  * lattice_max_degrees(1) = [[2]] (the only cell of a 1x1 lattice has no neighbour);
+  * equal_except_adj_list_sequence: the docstring warns of false positives for CoordTokenizers.CTT only; TLC finds one for UT
+    tokens as well (two vertical vs two horizontal connections of a 2x2 maze: equal degree vectors) - not a tolerance, the
+    definition (bag of TOKENS) is what the code does; it is the docstring's claim that is too narrow.
 """
 import concurrent.futures as cf
 import itertools
@@ -432,6 +437,10 @@ def _jobs(seed, thorough):
     le = 4 if thorough else 3
     es = [list(q) for n in range(0, le + 1) for q in itertools.product([AS, AE, "a", "b"], repeat=n)]
     J += _chunks("eq", [(a, b) for a in es for b in es], 2500)
+    #     ... and every pair of  prefix <ADJLIST_START> inner <ADJLIST_END> suffix  with inner over {a, b} up to 3 (thorough 4) tokens
+    #     (bags that differ with equal sets, equal bags in another order, differences outside the region)
+    fr = [p + [AS] + list(q) + [AE] + u for n in range(0, le + 1) for q in itertools.product("ab", repeat=n) for p in ([], ["a"], ["b"]) for u in ([], ["a"], ["b"])]
+    J += _chunks("eq", [(a, b) for a in fr for b in fr], 2500)
     # --- directions: every triple / pair of cells of (-1..2)^2, wrong shapes
     cells = [(i, j) for i in range(-1, 3) for j in range(-1, 3)]
     dirs = [([p, c, n], "rel") for p in cells for c in cells for n in cells] + [([p, c], "card") for p in cells for c in cells]
@@ -470,7 +479,7 @@ def _jobs(seed, thorough):
         mzj.append((2, g1, None, [seed, 37, k], True, (2, g2, None, [seed, 38, k], True)))
     J += _chunks("maze", mzj, 4)
     return J, dict(lexer_strings_exhaustive=n_lex_exh, lexer_strings_random=len(rnd), lexer_full_length=full, token_sequences_exhaustive=len(seqs), token_sequence_length=ltb,
-                   token_sequences_random=len(tbr), equal_except_pairs=len(es) ** 2, direction_cases=len(dirs), adjacency_graphs=len(adj), coords_to_strings_cases=len(c2s),
+                   token_sequences_random=len(tbr), equal_except_pairs=len(es) ** 2 + len(fr) ** 2, direction_cases=len(dirs), adjacency_graphs=len(adj), coords_to_strings_cases=len(c2s),
                    bool_array_cases=len(bl), mazes_tokenized=len(mzj), tokenizers=10)
 
 
@@ -742,12 +751,19 @@ def run(chk, thorough):
                 note(x["r"])
             chk.evaluations += 1
             chk.nontrivial.add(("tu", x["id"]))
+        by_clause = {}
+        for cl in res.verdicts.values():
+            for c in cl:
+                by_clause[c] = by_clause.get(c, 0) + 1
+        by_clause = dict(sorted(by_clause.items()))
+        if by_clause:
+            print(f"[{chk.prop}] token utility stage: records rejected per clause: {json.dumps(by_clause)}")
         fp = [x for x in recs[:n_real] if x["t"] == "eq" and x.get("same") == "n" and x["r0"]["v"]]
         chk.notes["token_utils"] = dict(
             library=str(maze_dataset.__file__), scope=scope, records_by_kind=by_kind, records=n_real, controls_accepted=len(controls), canaries=len(canaries),
             outcomes_raised=dict(sorted(raised.items())), as_tokens_raised_skipped=skipped, tolerated_documented_vs_actual=tolerated,
             equal_except_false_positives_on_real_tokenizations_of_different_mazes=len(fp),
-            observe_s=round(t_obs, 1), oracle_s=round(res.wall, 1), divergent_records=len(res.verdicts),
+            observe_s=round(t_obs, 1), oracle_s=round(res.wall, 1), divergent_records=len(res.verdicts), divergences_by_clause=by_clause,
         )
         pick = next((x for x in recs[:n_real] if x["t"] == "get" and x.get("tokenizer") == "modular:AOP"), None)
         if pick is not None:
